@@ -300,6 +300,8 @@ def check_shell(ctx):
         sizes = S.SIZES if ctx.thorough else [0, 1, 65535, 65536, 65537, 131073]
         for size in sizes:
             seqs.append(('roundtrip', S.roundtrip_sequence(rng, size)))
+        for ft in ('fat12', 'fat16', 'fat32'):
+            seqs.append(('dirmove', S.dirmove_sequence(rng, ft)))
         nseq = 3000 if ctx.thorough else (700 if ctx.widen else 400)
         for _ in range(nseq):
             seqs.append(('random', S.gen_sequence(rng, rng.randrange(6, 20))))
